@@ -2,6 +2,7 @@ package main
 
 import (
 	"fmt"
+	"strconv"
 	"strings"
 )
 
@@ -65,17 +66,58 @@ func instantiate(rng *Rng, pat string) string {
 		}
 		switch {
 		case strings.Contains(re, `\d`):
-			out.WriteString(rng.Pick(numVals))
+			out.WriteString(pickNum(rng))
 		case strings.Contains(re, `[a-z]{2}`):
 			out.WriteString(rng.Pick(langVals))
 		case re == ".+":
-			out.WriteString(rng.Pick(fileVals))
+			if rng.Chance(1, 10) {
+				out.WriteString(exoticVal(rng) + "/" + exoticVal(rng))
+			} else {
+				out.WriteString(rng.Pick(fileVals))
+			}
 		default:
-			out.WriteString(rng.Pick(anyVals))
+			out.WriteString(pickAny(rng))
 		}
 		i = j
 	}
 	return out.String()
+}
+
+// Values are mostly drawn from tiny pools (so that paths repeat and the cache
+// hits); now and then a run gets many distinct values (so that big caches fill
+// and evict) or odd ones: long, non-ASCII, reserved characters, leading zeros.
+var oddVals = []string{"a-b_c~d", "x%41y", "caf\u00e9", "\u65e5\u672c", "a b", "a+b=c", "(x)", "k:v", "u@h", "'q'", "*", "$1", "a,b;c", "0", "00012", "-1", "null", "..", "...", "%2F"}
+
+func exoticVal(rng *Rng) string {
+	switch rng.Intn(5) {
+	case 0:
+		return strings.Repeat("a", rng.Range(60, 70)) // around 64 bytes
+	case 1:
+		return strings.Repeat("ab", rng.Range(100, 160)) // a few hundred bytes
+	case 2:
+		return strings.Repeat("z", rng.Pick2(255, 256)+rng.Intn(2))
+	}
+	return rng.Pick(oddVals)
+}
+
+func pickAny(rng *Rng) string {
+	switch {
+	case rng.Chance(1, 12):
+		return exoticVal(rng)
+	case rng.Chance(1, 8):
+		return "k" + strconv.Itoa(rng.Intn(400)) // many distinct keys
+	}
+	return rng.Pick(anyVals)
+}
+
+func pickNum(rng *Rng) string {
+	switch {
+	case rng.Chance(1, 12):
+		return rng.Pick([]string{"00012", "0", "99999999999999999999999", "007", strings.Repeat("9", 70)})
+	case rng.Chance(1, 8):
+		return strconv.Itoa(rng.Intn(400))
+	}
+	return rng.Pick(numVals)
 }
 
 func inBraces(s string, pos int) bool {
@@ -161,9 +203,13 @@ func (g *Gen) GenShape(cfg ShapeCfg) {
 	if rng.Chance(cfg.CacheChance[0], cfg.CacheChance[1]) {
 		sc.Options.Caching = true
 		sc.Options.Capacity = cfg.Caps[rng.Intn(len(cfg.Caps))]
+		if rng.Chance(1, 12) {
+			sc.Options.Capacity = []int{5, 8, 16, 64, 255, 256, 65535}[rng.Intn(7)] // boundaries of the uint16 option and mid sizes
+		}
 		sc.Options.CacheOpt = rng.Pick([]string{"", "", "enable-max", "max-enable"})
 	}
 	sc.Options.StrictSlash = rng.Chance(1, 6)
+	sc.Options.EncodedPath = rng.Chance(1, 10)
 	if cfg.FallbackOpts {
 		sc.Options.NotAllowed = rng.Chance(1, 2)
 		sc.Options.Fallback = rng.Chance(1, 8)
@@ -188,6 +234,9 @@ func (g *Gen) GenShape(cfg ShapeCfg) {
 		prog = append(prog, RegOp{Op: "use", MW: c})
 	}
 	nRoutes := rng.Range(1, cfg.MaxRoutes)
+	if rng.Chance(1, 25) {
+		nRoutes = rng.Range(cfg.MaxRoutes, 4*cfg.MaxRoutes) // a big table now and then
+	}
 	for len(g.templates) < nRoutes {
 		if rng.Chance(cfg.GroupChance[0], cfg.GroupChance[1]) {
 			prog = append(prog, g.genGroup(&cfg, "", 1, nRoutes))
